@@ -456,7 +456,13 @@ pub fn compute_lattice_index(rows: &Vec<Vec<i64>>, hmin: f64, hmax: f64) -> u128
     assert!(hmax / hmin < 1.5);
     assert!(hmax.log2() < 126.0);
     let mut rows: Vec<&[i64]> = rows.iter().map(|v| &v[..]).collect();
-    rows.sort_by_cached_key(|x| x.iter().map(|&y| y * y).sum::<i64>());
+    // Squared norm as sort key; i64 squares overflow above 2^31.5.
+    rows.sort_by_cached_key(|x| {
+        x.iter().fold(0u128, |s, &y| {
+            let a = y.unsigned_abs() as u128;
+            s.saturating_add(a * a)
+        })
+    });
     let dim = rows[0].len();
     let mut gcd = I4096::ZERO;
     // At least one start index, also for 1 to 3 rows.
